@@ -345,6 +345,14 @@ def judge_c07(d, _=None):
             V(out, "C07", "pending-while-user-function-running",
               f"invocation {inv['n']} returned PENDING while the {x['kind']} function at {x['path']} was still executing",
               kind=x["kind"])
+        out.extend(_overdue_branch(d, inv))
+        for x in inv.get("entered_after_return", []):
+            p = tuple(int(s_) if s_.isdigit() else s_ for s_ in x["path"].split("."))
+            if _orphan_at_end(d, p):
+                continue
+            V(out, "C07", "user-function-started-after-pending-was-returned",
+              f"invocation {inv['n']} of {d.program.get('name')} returned PENDING and afterwards the {x['kind']} function at "
+              f"{x['path']} was entered (the branch was neither finished nor parked)", kind=x["kind"])
         if not inv.get("timers_at_return") and not inv.get("outstanding_at_return") and not inv.get("completed_during"):
             V(out, "C07", "pending-with-nothing-armed",
               f"invocation {inv['n']} returned PENDING but the backend has no armed timer and awaits no event")
@@ -352,6 +360,39 @@ def judge_c07(d, _=None):
     if f.get("status") in ("MAXINV", "STUCK", "RAISED"):
         V(out, "C07", "execution-does-not-terminate",
           f"execution ended {f.get('status')} after {len(d.invocations)} invocations", how=f.get("status"))
+    return out
+
+
+OVERDUE_SLACK = 0.35   # seconds; the SDK's timer thread polls every 0.1 s
+
+
+def _overdue_branch(d, inv):
+    """A map/parallel decided to suspend although one of its branches had been due (by the branch's
+    own resume time) for longer than the timer thread needs to notice it, and was not resumed."""
+    out = []
+    parked = inv.get("parked", [])
+    for dec in parked:
+        if dec["op"] not in ("parallel", "map") or dec.get("vt") is None:
+            continue
+        P = tuple(dec["path"])
+        last = {}
+        for pk in parked:
+            p = tuple(pk["path"])
+            if len(p) > len(P) + 1 and p[:len(P)] == P and pk["tick"] < dec["tick"]:
+                b = p[len(P)]
+                if b not in last or pk["tick"] > last[b]["tick"]:
+                    last[b] = pk
+        for b, pk in last.items():
+            if pk.get("due") is None:
+                continue
+            # resumed after that park?
+            resumed = any(e["inv"] == inv["n"] and e["tick"] > pk["tick"] and tuple(e["path"][:len(P) + 1]) == P + (b,)
+                          for e in d.world.entries)
+            if not resumed and dec["vt"] - pk["due"] > OVERDUE_SLACK:
+                V(out, "C07", "suspended-although-a-branch-was-overdue",
+                  f"invocation {inv['n']} of {d.program.get('name')}: {dec['op']} at {fmt_path(P)} suspended at t={dec['vt']} "
+                  f"although branch {b} (parked on {pk['op']}) had been due since t={pk['due']} and was not resumed",
+                  op=pk["op"])
     return out
 
 
